@@ -1,5 +1,5 @@
 """Property -> rule families.  Each entry is a list of callables taking the Run context."""
-import rf_alloc, rf_state, rf_tables, rf_sig, rf_union, rf_flow, rf_vocab, rf_mir2c, rf_code, rf_bounds, rf_fold, rf_proto
+import rf_alloc, rf_state, rf_tables, rf_sig, rf_union, rf_flow, rf_vocab, rf_mir2c, rf_code, rf_bounds, rf_fold, rf_proto, rf_dispatch
 from lib import facts as F
 
 
@@ -183,6 +183,21 @@ def c14_rf16f(run):
     run.min_instances('RF16f', 15)
 
 
+def c02_rf7a(run):
+    rf_dispatch.rf7a(run)
+    run.min_instances('RF7a', 600)
+
+
+def c15_rf7b(run):
+    rf_dispatch.rf7b(run, units=('mir', 'gen'))
+    run.min_instances('RF7b', 1)
+
+
+def c20_rf7h(run):
+    rf_dispatch.rf7h_mir2c(run)
+    run.min_instances('RF7h', 150)
+
+
 PLAN = {
     'C13': [c13_rf16],
     'C14': [c14_rf16f],
@@ -192,9 +207,9 @@ PLAN = {
     'C12': [c12_rf13],
     'C10': [c10_rf6, c10_vocab],
     'C11': [c11_rf6, c11_vocab, c11_rf14],
-    'C02': [c02_rf8, c02_rf23],
-    'C20': [c20_rf8, c20_rf6, c20_rf21],
-    'C15': [c15_rf17, c15_rf16h],
+    'C02': [c02_rf8, c02_rf23, c02_rf7a],
+    'C20': [c20_rf8, c20_rf6, c20_rf21, c20_rf7h],
+    'C15': [c15_rf17, c15_rf16h, c15_rf7b],
     'C18': [c18_rf5],
     'C17': [c17_rf1, c17_rf3, c17_rf4],
 }
